@@ -110,6 +110,25 @@ pub fn norm_dir(p: &str) -> String {
     parts.join("/")
 }
 
+/// A child's working directory relative to find's own (`root`), lexically normalised: an
+/// absolute spelling of a directory below `root` is the same directory as the relative one.
+pub fn rel_dir(c: &[u8], root: &std::path::Path) -> String {
+    use std::os::unix::ffi::OsStrExt;
+    if c.starts_with(b"/") {
+        let canon = std::fs::canonicalize(root).unwrap_or_else(|_| root.to_path_buf());
+        for r in [root.as_os_str().as_bytes(), canon.as_os_str().as_bytes()] {
+            if let Some(rest) = c.strip_prefix(r) {
+                if rest.is_empty() || rest.starts_with(b"/") {
+                    return norm_dir(&String::from_utf8_lossy(rest));
+                }
+            }
+        }
+        // somewhere else: keep it recognisably absolute
+        return format!("/{}", norm_dir(&String::from_utf8_lossy(c)));
+    }
+    norm_dir(&String::from_utf8_lossy(c))
+}
+
 /// (parent directory, "./basename") of a printed path, as -execdir must see it.
 pub fn split_for_execdir(p: &str) -> (String, String) {
     let trimmed = p.trim_end_matches('/');
@@ -407,13 +426,13 @@ impl Property for C09 {
                     match (&want_dir, cwd) {
                         (None, None) => {}
                         // an explicit `.` is find's own directory
-                        (None, Some(c)) if norm_dir(&String::from_utf8_lossy(c)).is_empty() && !c.starts_with(b"/") => {}
+                        (None, Some(c)) if rel_dir(c, &obs.root).is_empty() => {}
                         (None, Some(c)) => {
                             rep.fail("C09.unexpected-cwd", format!("{}: -exec ran [{}] in directory [{}]", describe(), crate::sys::show(&path), crate::sys::show(c)));
                             return;
                         }
                         (Some(d), c) => {
-                            let got = c.as_ref().map(|c| norm_dir(&String::from_utf8_lossy(c))).unwrap_or_default();
+                            let got = c.as_ref().map(|c| rel_dir(c, &obs.root)).unwrap_or_default();
                             if got != *d {
                                 rep.fail(
                                     "C09.execdir-wrong-directory",
@@ -440,11 +459,11 @@ impl Property for C09 {
                             (path.clone(), None)
                         };
                         let want2 = vec![CMD2.as_bytes().to_vec(), substitute(t2, &p2)];
-                        let got_dir = cwd2.as_ref().map(|c| norm_dir(&String::from_utf8_lossy(c)));
+                        let got_dir = cwd2.as_ref().map(|c| rel_dir(c, &obs.root));
                         let dir_ok = match (&d2, &got_dir) {
                             (None, None) => true,
                             (Some(d), g) => g.clone().unwrap_or_default() == *d,
-                            (None, Some(g)) => g.is_empty() && !cwd2.as_ref().is_some_and(|c| c.starts_with(b"/")),
+                            (None, Some(g)) => g.is_empty(),
                         };
                         if *argv2 != want2 || !dir_ok {
                             rep.fail(
